@@ -342,6 +342,12 @@ pub fn draw_cfg(profile: &str, thorough: bool, rng: &mut Rng) -> RunCfg {
                     (&mut cfg.w_partition, 1, 5),
                 ],
             );
+            // "content an undo manager may still need to restore is not collected": an undo
+            // manager on node 0 in some of the runs
+            cfg.sticky_undo = rng.chance(40);
+            if cfg.sticky_undo {
+                cfg.w_special += 6;
+            }
         }
         "relay" => {
             cfg.w_special = rng.range(8, 18) as u32;
